@@ -11,7 +11,9 @@
     to the number of remaining tokens (each element consumes at least one), expressions are parsed by `OpExpr.parseE`
     with no rule pending.  It is total, and it consumes tokens whenever it succeeds (`Csvq.C18.parse_total`).
   Not modelled yet (by correspondence only): INTO, WITH, FOR UPDATE, the FETCH form of LIMIT, LATERAL, parenthesised
-  tables and sub-selects in FROM, table functions, set operators, and the expression forms outside `OpExpr`.
+  tables and sub-selects in FROM, table functions, set operators, and the expression forms outside `OpExpr` (which since
+  wave 17 holds NOT LIKE, [NOT] BETWEEN, [NOT] IN lists, function calls and cursor status: they may stand wherever the
+  SELECT skeleton has an expression, and `select_print_parse` covers them).
 -/
 import Csvq.Model.OpExpr
 namespace Csvq.Clause
@@ -103,10 +105,8 @@ structure Select (α : Type) where
 
 variable {α : Type} [DecidableEq α]
 
-/-- atoms are identifiers (even codes) or numbers (odd codes): names, aliases and USING columns must be identifiers,
-    the values of LIMIT / OFFSET numbers -/
-def isId (n : Nat) : Bool := n % 2 = 0
-def isNum (n : Nat) : Bool := n % 2 = 1
+/- atoms are identifiers (even codes) or numbers (odd codes) — `OpExpr.isId` / `OpExpr.isNum`: names, aliases and USING
+   columns must be identifiers, the values of LIMIT / OFFSET numbers -/
 
 /-! ## printing (the String() methods) -/
 
@@ -209,7 +209,7 @@ def printSelect (tbl : Table α) (s : Select α) : List (Tok α) :=
 
 /-- an expression with no rule pending -/
 def parseExpr (tbl : Table α) (ts : List (Tok α)) : Option (Expr α × List (Tok α)) :=
-  parseE tbl (3 * ts.length + 3) 0 ts
+  parseE tbl (fuelFor ts) 0 false ts
 
 /-- `p (, p)*` -/
 def parseSep {β : Type} (p : List (Tok α) → Option (β × List (Tok α))) : Nat → List (Tok α) → Option (List β × List (Tok α))
